@@ -37,6 +37,9 @@ pub struct StarkConfig {
     pub n_verifier_friendly_commitment_layers: Felt,
 }
 
+const MAX_LOG_N_COSETS: Felt = Felt::from_hex_unchecked("0x10");
+const MAX_N_QUERIES: Felt = Felt::from_hex_unchecked("0x30");
+
 impl StarkConfig {
     pub fn security_bits(&self) -> Felt {
         self.n_queries * self.log_n_cosets + Felt::from(self.proof_of_work.n_bits)
@@ -49,6 +52,17 @@ impl StarkConfig {
         num_columns_second: Felt,
     ) -> Result<(), Error> {
         self.proof_of_work.validate()?;
+
+        // Bound the blow-up exponent and the query count as integers, so that none of the
+        // comparisons below (all done in the field) can be satisfied by wrapping around.
+        ensure!(
+            Felt::ONE <= self.log_n_cosets && self.log_n_cosets <= MAX_LOG_N_COSETS,
+            Error::LogNCosetsOutOfBounds
+        );
+        ensure!(
+            Felt::ONE <= self.n_queries && self.n_queries <= MAX_N_QUERIES,
+            Error::NQueriesOutOfBounds
+        );
 
         ensure!(security_bits <= self.security_bits(), Error::InsufficientSecurity);
 
@@ -68,6 +82,9 @@ impl StarkConfig {
 
         // Validate Fri config.
         self.fri.validate(self.log_n_cosets, self.n_verifier_friendly_commitment_layers)?;
+
+        // The FRI input layer is the evaluation domain.
+        ensure!(self.fri.log_input_size == log_eval_domain_size, Error::FriInputSizeMismatch);
         Ok(())
     }
 }
@@ -91,6 +108,12 @@ pub enum Error {
     DynamicParamsMissing,
     #[error("insufficient number ofsecurity bits")]
     InsufficientSecurity,
+    #[error("log_n_cosets out of bounds")]
+    LogNCosetsOutOfBounds,
+    #[error("n_queries out of bounds")]
+    NQueriesOutOfBounds,
+    #[error("fri input size does not match the evaluation domain size")]
+    FriInputSizeMismatch,
 }
 
 #[cfg(not(feature = "std"))]
@@ -111,4 +134,10 @@ pub enum Error {
     DynamicParamsMissing,
     #[error("insufficient number ofsecurity bits")]
     InsufficientSecurity,
+    #[error("log_n_cosets out of bounds")]
+    LogNCosetsOutOfBounds,
+    #[error("n_queries out of bounds")]
+    NQueriesOutOfBounds,
+    #[error("fri input size does not match the evaluation domain size")]
+    FriInputSizeMismatch,
 }
